@@ -34,6 +34,10 @@ var accelShapes = []string{
 	`\w*@x`, `[^,]*,`, `a*b`, `\s*=`, `[ab]*c+d`, `a*?b`, `\w+:`, `(?>a*)b`,
 	`\w+@\w+\.com`, `[\w-]+\s*=\s*\d+`, `[a-z]+ = [0-9]+;`,
 	`[abc]\d`, `\d+x`, `[a-c]+`, `a|b|c`, `ab|.c`, `a|.`, `(?:a|b)c|d`, `a?b`, `(a)?b`, `(?=ab)a.`, `(?=a)\w+`, `(?!b)\w`, `(?<=a)b`,
+	`[ac]*[ab]{1,2}a`, `a*[ab]{1,2}[a-]`, `[ac]+[ab]{1,3}b[ab]{1,2}a`, `\w*[ab]{2,3}b`, `(?>a+)?ab`, `(?>a*)?aab`, `(?>a{1,2}){2}`, `(?<=(?:a*ba){2})`, `(?<=(?:a*$){2})`,
+	`(a*c?)b\1`, `(\w+,)\1`, `(a+b?)\1c`, `(?<w>\w+ )\k<w>`, `([ab]+c?)d\1`,
+	`abab`, `abca\d`, `abab\w`, `aba`, `abcab`, `(?i)abab`,
+	`[ab]{25}c`, `[ab]{21}cd`, `\w{22}x`, `[a-c]{30}`, `a{25}b`, `[a-z]+(?:@|\d+)[a-z]+(?:\.|,)[a-z]+`, `\w+(?:-|\s+)\w+(?:=|\d)\w+`, `[a-z]+(?:x|[0-9]{2})[a-z]+(?:;|y+)z`,
 	`\bab`, `\Bab`, `a{3}`, `a{2,}b`, `(?:ab){2}`, `(?:ab*){2}`, `(ab*)+c`, `[a-c]{2}d`, `é+a`, `a😀b`,
 }
 
@@ -115,6 +119,22 @@ func accelInputs(r *Rng, p patCase, n int) [][]rune {
 		default:
 			out = append(out, randString(r, append(lits, '\n', ' '), 6))
 		}
+	}
+	if strings.Contains(p.pat, "{2") || strings.Contains(p.pat, "{3") {
+		for _, n := range []int{19, 20, 21, 22, 24, 25, 26, 29, 30, 31} {
+			run := randString(r, []rune{'a', 'b'}, 0)
+			for len(run) < n {
+				run = append(run, Pick(r, []rune{'a', 'b', 'a', 'b', 'c'}[:2+r.Intn(2)]))
+			}
+			out = append(out, append(append(randString(r, []rune{'x', 'a'}, 2), run...), []rune(Pick(r, []string{"c", "cd", "x", "b", "", "cx"}))...))
+		}
+	}
+	// an occurrence of the pattern's letters right after / before a non-ASCII rune and after a partial occurrence
+	if len(lits) >= 2 {
+		full := append([]rune{}, lits...)
+		half := full[:len(full)/2+1]
+		out = append(out, append([]rune("c\u00e9"), full...), append(append(append([]rune{}, full...), []rune(" c\u00e9")...), full...),
+			append(append([]rune{}, full...), []rune("\u00e9c")...), append(append(append([]rune{}, half...), '\u00e9'), full...), append(append([]rune{}, half...), full...))
 	}
 	out = append(out, nil, []rune{lits[0]})
 	return out
@@ -331,6 +351,11 @@ func legFacts(c *Ctx) {
 			}
 		}
 		var inputs [][]rune
+		// a multi-prefix pattern gets inputs that start with each of its prefixes (always run: index < 30),
+		// so that the LeadingPrefixes fact is exercised whatever alphabet sample the seed picked
+		for _, s := range fo.LeadingPrefixes {
+			inputs = append(inputs, append([]rune(s), '1', 'a'), append([]rune(s), 'a', '1'))
+		}
 		maxLen := c.N(3, 4)
 		if len(al) <= 4 {
 			maxLen++
@@ -339,6 +364,14 @@ func legFacts(c *Ctx) {
 		budget := c.N(120, 600)
 		for k := 0; k < 8; k++ {
 			inputs = append(inputs, randString(c.Rng, al, 12))
+		}
+		if strings.Contains(p.pat, "{2") || strings.Contains(p.pat, "{3") || strings.Contains(p.pat, "(?:") {
+			inputs = append(inputs, accelInputs(c.Rng, p, 12)...)
+		}
+		if fo.FindMode == syntax.RequiredLandmarkChain_LeftToRight || fo.FindMode == syntax.LiteralAfterLoop_LeftToRight {
+			for _, s := range []string{"ab@cd.com", "x=12", "ab12cd.ef", "a@b,c", "ab = 12;", "a-b=c", "a b1c", "ab12cd,ef", "q@r.s", "ab  =  7", "abx12yz;yz", "ab42cdyyz", "a1b.c", "xx-yy1zz", "k \t= 3"} {
+				inputs = append(inputs, []rune(s), append([]rune("zz "), []rune(s)...))
+			}
 		}
 		rtl := p.o.RTL
 		for idx, in := range inputs {
@@ -473,6 +506,48 @@ func legFacts(c *Ctx) {
 					}
 					chk("LiteralAfterLoop", true, ok)
 				}
+				if lc := fo.LandmarkChain; lc != nil && fo.FindMode == syntax.RequiredLandmarkChain_LeftToRight {
+					// every landmark must be satisfiable, in order, somewhere ahead of the attempt position
+					// (whitespace requirements are not re-checked: the check is weaker, never stricter, than the fact)
+					cursor, ok := 0, true
+					for _, lm := range lc.Landmarks {
+						best := -1
+						for _, alt := range lm.Alternatives {
+							for k := cursor; k <= len(ahead); k++ {
+								end := -1
+								if len(alt.Literal) > 0 {
+									if hasPrefixFold(ahead[k:], alt.Literal, false) {
+										end = k + len(alt.Literal)
+									}
+								} else if alt.Set != nil {
+									n := 0
+									for k+n < len(ahead) && alt.Set.CharIn(ahead[k+n]) {
+										n++
+									}
+									need := alt.MinRepeat
+									if need < 1 {
+										need = 1
+									}
+									if n >= need {
+										end = k + need
+									}
+								}
+								if end >= 0 {
+									if best < 0 || end < best {
+										best = end
+									}
+									break
+								}
+							}
+						}
+						if best < 0 {
+							ok = false
+							break
+						}
+						cursor = best
+					}
+					chk("LandmarkChain", true, ok)
+				}
 				if fc := code.FcPrefix; fc != nil && mlen > 0 {
 					x := ahead[0]
 					ok := fc.PrefixSet.CharIn(x)
@@ -510,7 +585,7 @@ func legFacts(c *Ctx) {
 		}
 	}
 	for _, f := range []string{"MinRequiredLength", "MaxPossibleLength", "LeadingAnchor", "TrailingAnchor", "LeadingPrefix", "LeadingPrefixes", "FixedDistanceChar",
-		"FixedDistanceString", "FixedDistanceSets", "LiteralAfterLoop", "FcPrefix", "BmPrefix", "Anchors.Beginning", "Anchors.Start", "LeadingChar_RightToLeft"} {
+		"FixedDistanceString", "FixedDistanceSets", "LiteralAfterLoop", "LandmarkChain", "FcPrefix", "BmPrefix", "Anchors.Beginning", "Anchors.Start", "LeadingChar_RightToLeft"} {
 		c.Gate("fact "+f+" checked at some match", factHits[f] > 0)
 	}
 	for k, v := range factHits {
